@@ -348,7 +348,7 @@ def validate(ctx, name, module, xs, consts, chunk=1500, tmo=900, constraints=('P
     rejected = sorted(total - acc)
     res = {'name': name, 'module': module, 'executions': len(total), 'accepted': len(acc), 'rejected': rejected,
            'tlc_generated': gen, 'tlc_distinct': dist, 'wall_s': round(time.time() - t0, 1), 'trace': tracefile,
-           'driver': xs['driver'], 'diag': {}}
+           'driver': xs['driver'], 'diag': {}, 'mode': xs.get('mode', 'dfs')}
     # diagnosis: furthest record for the first few rejected executions
     sched = read_sched(tracefile)
     for num in rejected[:3]:
@@ -423,6 +423,10 @@ def check_histories(ctx, name, driver, module, consts, xs, known_preds=(), extra
             if kf not in ctx.known_hits:
                 ctx.known_hits.append(kf)
             continue
+        if res.get('mode') == 'random' and diag.get('sched'):
+            # random schedules are replayed by their thread list (one entry per scheduling point), not by DFS decisions
+            sc = diag['sched']
+            diag = dict(diag, sched=(sc[0], sc[1], sc[3], sc[3], sc[4]))
         p = write_replay(ctx, name, driver, module, consts, diag, num, extra_args)
         # confirm (executions are deterministic; a non-repeat is an xvrt bug -> infrastructure failure)
         rej, _ = replay(ctx, p)
